@@ -408,7 +408,7 @@ def judge(acc, site, h, repo, before_ids, xfer_ids, want_ids, sent, include_tag,
     full = ref.closure(h.edges, want_ids)
     # (1)/(4) completeness of what was transferred
     if depth:
-        inside, _frontier = ref.depth_levels(h.parents, tips, depth)
+        inside, _frontier = ref.depth_levels(h.parents, tips, depth)  # noqa: F841
         need = set()
         for w in xfer_ids:
             o = w
@@ -436,6 +436,17 @@ def judge(acc, site, h, repo, before_ids, xfer_ids, want_ids, sent, include_tag,
     bad = sorted(k for k, v in refs.items() if v not in h.raw)
     if bad:
         acc.violation("%s:refs:names-unknown-object" % site, "%s: refs %r name objects outside the history" % (desc, bad), replay)
+    if depth:
+        # (4) a commit that arrived without (all of) its parents must be recorded as shallow;
+        # otherwise the receiver now has history with dangling parents
+        reach = ref.closure(h.edges, [v for v in refs.values() if v in h.raw], cut=shallow)
+        unmarked = sorted(c for c in reach if c in h.parents and c not in shallow and c in store
+                          and any(p not in store for p in h.parents[c]))
+        if unmarked:
+            acc.violation("%s:shallow:boundary-commit-not-recorded-as-shallow" % site,
+                          "%s: commit(s) %r arrived without their parents but the receiver's shallow set is %r"
+                          % (desc, [u.decode()[:10] for u in unmarked], sorted(x.decode()[:10] for x in shallow)), replay)
+            shallow |= set(unmarked)
     allneed = ref.closure(h.edges, [v for v in refs.values() if v in h.raw], cut=shallow)
     miss2 = sorted(o for o in allneed if o not in store and o not in missing)
     if miss2:
@@ -812,6 +823,87 @@ def _tee_connect(client, sink):
     client._connect = _connect
 
 
+def _subprocess_quiescent(proc, timeout=30.0):
+    """Wait until the C git child has exited, or sleeps in read(0, ...) with an empty stdin pipe:
+    everything it is going to write without further input is then in its stdout pipe."""
+    import array
+    import fcntl
+    import termios
+    import time
+
+    base = "/proc/%d/" % proc.pid
+    t0 = time.monotonic()
+    fields = None
+    while True:
+        if proc.poll() is not None:
+            return
+        try:
+            with open(base + "syscall") as f:
+                fields = f.read().split()
+            with open(base + "stat") as f:
+                state = f.read().rsplit(")", 1)[1].split()[0]
+        except OSError:
+            return  # gone
+        if len(fields) >= 2 and fields[0] == "0" and int(fields[1], 16) == 0 and state == "S":
+            buf = array.array("i", [0])
+            try:
+                fcntl.ioctl(proc.stdin.fileno(), termios.FIONREAD, buf)
+            except (OSError, ValueError):
+                return
+            if buf[0] == 0:
+                return
+        if time.monotonic() - t0 > timeout:
+            raise HarnessError("git child neither sleeping in read(0) nor exited: %r" % (fields[:2],))
+        time.sleep(0.0002)
+
+
+def _net_model(client, model, srv):
+    """Own the one timing-dependent decision of dulwich's fetch client: ``can_read()`` polls the
+    socket while haves are being sent (client._handle_upload_pack_head).  Two legal extremes are
+    enumerated instead of leaving it to the scheduler:
+      lazy   the poll never sees data (slow server / fast client)
+      eager  the poll is answered only once the server is quiescent (blocked waiting for the
+             client, or finished), i.e. it sees everything the server could have said by then
+    """
+    orig = client._connect
+
+    def _connect(*a, **kw):
+        proto, can_read, stderr = orig(*a, **kw)
+        if can_read is None:
+            return proto, can_read, stderr
+        if model == "lazy":
+            return proto, (lambda: False), stderr
+        if srv is not None:
+            consumed = [0]
+            written = [0]
+            rd, wr = proto.read, proto.write
+
+            def read(n):
+                data = rd(n)
+                consumed[0] += len(data)
+                return data
+
+            def write(data):
+                written[0] += len(data)
+                return wr(data)
+
+            proto.read, proto.write = read, write
+
+            def eager():
+                return srv.wire.quiescent(written[0]) > consumed[0]
+
+            return proto, eager, stderr
+        proc = can_read.__self__.proc
+
+        def eager_pipe():
+            _subprocess_quiescent(proc)
+            return can_read()
+
+        return proto, eager_pipe, stderr
+
+    client._connect = _connect
+
+
 def _index(acc, site, h, pack, replay, desc, label):
     """ids of a captured pack via the independent parser; None when nothing was captured."""
     from engines import xfer
@@ -906,6 +998,8 @@ def _case_proto(acc, h, D, fam, rtag, wants, transport, direction, o, site, desc
             if not cgit_client:
                 where = srv.port if transport == "tcp" else srv.url() if transport == "http" else None
                 c = _client(transport, o, where)
+                if transport != "http":
+                    _net_model(c, o.get("net", "eager"), srv)
                 path = "/" if srv is not None else (sdir if direction != "push" else rdir)
                 if direction == "fetch":
                     target = Repo(rdir)
@@ -979,6 +1073,7 @@ def _case_proto(acc, h, D, fam, rtag, wants, transport, direction, o, site, desc
         # ---- what went over the wire
         sent = None
         packs = []
+        wire_wants = set()
         if srv is not None:
             from engines import xfer as X
 
@@ -987,6 +1082,9 @@ def _case_proto(acc, h, D, fam, rtag, wants, transport, direction, o, site, desc
                     pack, _rest, fatal = X.sideband_pack(conn["tx"])
                     if pack:
                         packs.append(("server-tx", pack))
+                    for pl in X.split_pkts(conn["rx"])[0]:
+                        if pl and pl.startswith(b"want ") and len(pl) >= 45:
+                            wire_wants.add(pl[5:45])
                 else:
                     pack, _cmds = X.push_pack(conn["rx"])
                     if pack:
@@ -1002,7 +1100,7 @@ def _case_proto(acc, h, D, fam, rtag, wants, transport, direction, o, site, desc
         if failed is None or packs:
             sent = set()
             for label, pack in packs:
-                ids = _index(acc, site, h, pack, replay, desc, label)
+                ids = _index(acc if failed is None else Acc(), site, h, pack, replay, desc, label)
                 if ids is None:
                     sent = None
                     break
@@ -1030,11 +1128,19 @@ def _case_proto(acc, h, D, fam, rtag, wants, transport, direction, o, site, desc
             acc.outcome("%s:hostile-want-served:%d-objects" % (site, len(sent or ())))
             return
         got = repo.get_refs()
+        if wire_wants and direction != "push":
+            # what was really asked for on the wire (C git asks for auto-followed tags in a second
+            # request; a clone decides its wants itself)
+            unknown = sorted(w for w in wire_wants if w not in h.raw)
+            if unknown:
+                raise HarnessError("client wanted ids outside the history: %r" % unknown)
+            if not cgit_client and direction == "fetch" and wire_wants != set(want_ids):
+                acc.outcome("%s:wire-wants-differ-from-determine_wants" % site)
+            want_ids = sorted(wire_wants | (set(want_ids) if direction == "fetch" else set()))
         if xfer is None:  # clone: everything the clone recorded
-            xfer = sorted(set(got.values()))
-            want_ids = sorted(set(h.refs.values()) | set(xfer))
-            if not (o.get("tags", 1) or not cgit_client) :
-                want_ids = sorted(set(xfer))
+            xfer = sorted(v for v in set(got.values()) if v in h.raw)
+            if not wire_wants:
+                want_ids = sorted(set(h.refs.values()))
         elif cgit_client and direction == "fetch":
             # refs C git created on its own (auto-followed tags) are transferred refs as well
             extra = [v for k, v in got.items() if rrefs.get(k) != v and v in h.raw]
@@ -1044,7 +1150,12 @@ def _case_proto(acc, h, D, fam, rtag, wants, transport, direction, o, site, desc
             if notset:
                 acc.violation("%s:refs:reported-ok-but-not-set" % site, "%s: %r" % (desc, notset), replay)
         cls = judge(acc, site, h, repo, before, xfer, want_ids, sent, include_tag, depth, replay, desc)
-        acc.outcome(cls + (":srv-error" if server_errors else ""))
+        if server_errors:
+            # the transfer succeeded from the client's point of view; a server thread that then hits
+            # EOF/reset while waiting for more input is noise (and timing dependent): noted, not counted
+            last = server_errors[-1].strip().splitlines()[-1]
+            acc.note("server-side error after a successful transfer [%s]" % last.split(":")[0].split(".")[-1], "seen")
+        acc.outcome(cls)
         if o.get("fsck"):
             _fsck(acc, site, rdir, replay, desc)
     finally:
@@ -1234,6 +1345,9 @@ def proto_families(quick):
         full = tr == "tcp" or not quick
         ack_rows = [o(ack="single"), o(ack="multi"), o(), o(nodone=1)] if full else [o(ack="single"), o(), o(nodone=1)]
         depth_rows = [o(depth=1), o(depth=2), o(depth=1, ack="single"), o(depth=2, nodone=1)] if full else [o(depth=1)]
+        if tr == "tcp":  # the client polls for early answers only on stateful transports
+            ack_rows += [o(net="lazy", ack="single"), o(net="lazy", ack="multi"), o(net="lazy")]
+            depth_rows += [o(net="lazy", depth=1), o(net="lazy", depth=2)]
         fams.append(("%s A: n<=3 all DAGs, no tags" % tr, PA, [
             PB(tr, "fetch", ack_rows + depth_rows + ([o(storage="loose")] if full else []), maxwants=w_small),
             PB(tr, "push", [o(), o(ofs=0), o(sb=0)] if full else [o()], maxwants=w_small),
@@ -1257,7 +1371,9 @@ def proto_families(quick):
     tr = "cgit-srv"
     fams.append(("cgit-srv A: n<=3 all DAGs, no tags", PA, [
         PB(tr, "fetch", [o(pv=2), o(pv=0), o(pv=0, ack="single"), o(pv=0, ack="multi"),
-                         o(pv=0, ack="single", thin=0, ofs=0, sb=0), o(pv=2, depth=1), o(pv=0, depth=2)], maxwants=w_small),
+                         o(pv=0, ack="single", thin=0, ofs=0, sb=0), o(pv=2, depth=1), o(pv=0, depth=2),
+                         o(pv=0, net="lazy"), o(pv=0, net="lazy", ack="single"), o(pv=2, net="lazy", depth=2),
+                         o(pv=0, net="lazy", depth=1)], maxwants=w_small),
         PB(tr, "fetch", [o(pv=0, thin=0), o(pv=0, ofs=0), o(pv=0, sb=0), o(pv=2, thin=0)], maxwants=1 if quick else 3),
         PB(tr, "push", [o(), o(ofs=0), o(sb=0)], maxwants=1 if quick else 3),
         PB(tr, "clone", [o(pv=2), o(pv=0), o(pv=2, depth=1), o(pv=0, depth=2)], special="clone"),
@@ -1331,7 +1447,10 @@ def run(ctx):
     bounds = {}
     tasks = []
     declared = {}
+    only = os.environ.get("C05_ONLY")
     for label, hist, blocks in families(q) + proto_families(q):
+        if only and not __import__("re").search(only, label):
+            continue
         per = {}
         for spec in hist:
             h = history(*spec)
@@ -1371,6 +1490,7 @@ def run(ctx):
     ctx.coverage.update(
         evaluations=total,
         distinct_nontrivial=len(ctx.acc.classes),
+        outcome_classes=dict(sorted(ctx.acc.classes.items())),
         rule="wip",
         exhaustive=True,
         bounds=bounds,
